@@ -115,7 +115,9 @@ def run(name, tier="quick", keep=False):
         sh(f"git -C /repo worktree remove --force {wt}")
         if not keep:
             shutil.rmtree(evdir, ignore_errors=True)
-    detected = any(r["exit"] == 1 and r["violations"] for r in results.values())
+    def real(vs):
+        return [v for v in vs if "contracts#none" not in v and "#vacuity" not in v]
+    detected = any(r["exit"] == 1 and real(r["violations"]) for r in results.values())
     meta.setdefault("runs", []).append({"time": time.strftime("%F %T"), "tier": tier, "detected": detected, "results": results})
     meta["runs"] = meta["runs"][-3:]
     meta["detected"] = detected
